@@ -45,6 +45,9 @@ def _bary_ok(terms, tri_pat, bc_pat):
 
 
 def run(cx):
+    # the flattening consumes the edge tables of identify_edges: manifold guard, boundary-map entries, face_edges order (rule shared with C12)
+    from rules.C12 import identify_edges_rules
+    identify_edges_rules(cx)
     b = cx.fn('geom3::mesh::edges::MeshEdges::boundary_first_flatten')
     if b:
         GUARD = '(eq 1 (len (field boundary_loops (param self))))'
@@ -146,6 +149,48 @@ def run(cx):
         cx.ob('EXPR', 'cotan_laplacian_triplets', cot_ok and edge_acc and half and diag == {0, 1} and sym == {(0, 1), (1, 0)},
               'cot(angle j) is added to face_edges[j] (same j), the sums are halved, each edge weight is added to the diagonal of BOTH end vertices, and -w is emitted at (e0,e1) and (e1,e0)',
               where=b.file, found=f'cot={cot_ok} edge={edge_acc} half={half} diag={sorted(diag)} offdiag={sorted(sym)}')
+    # ---------------------------------------------------------------- the 2x2 inverse used by the boundary fit
+    b = cx.fn(f'{CF}::invert_2x2')
+    if b:
+        Mx = lambda r, c: ('call', 'Mat::index', ('param', 1, 'm'), ('agg', 'tuple', ('0', ('const', r)), ('1', ('const', c))))
+        ent = {}
+        for (r, c) in ((0, 0), (0, 1), (1, 0), (1, 1)):
+            f_ = find(f'(call Mat::index (param m) (agg tuple (0 {r}) (1 {c})))', cx.retval(b))
+            ent[(r, c)] = f_[0] if f_ else None
+        okm = all(v is not None for v in ent.values())
+        okg = oka = False
+        if okm:
+            det = ('sub', ('mul', ent[(0, 0)], ent[(1, 1)]), ('mul', ent[(0, 1)], ent[(1, 0)]))
+            errs = [(s_, d) for s_, d in cx.rets(b) if d[0] == 'agg' and d[1].endswith('Result::Err')]
+            oks = [(s_, d) for s_, d in cx.rets(b) if d[0] == 'agg' and d[1].endswith('Result::Ok')]
+            # singular <=> det == 0 exactly: an absolute threshold on a determinant (which scales with length^2 here) rejects small meshes
+            def det_lits(bb):
+                out = []
+                for a, pol in cx.guards(b, bb):
+                    e = match('(eq 0.0 $d)', a) or match('(eq $d 0.0)', a)
+                    if e is not None and rat_equal(e['d'], det):
+                        out.append(pol)
+                return out
+            sing = [s_ for s_, d in errs if find("'\"Matrix is singular\"'", d) is not None] or errs[-1:]
+            okg = len(oks) == 1 and len(errs) == 2 and det_lits(oks[0][0].bb) == [False] and any(det_lits(s_.bb) == [True] for s_, _ in errs) and \
+                all(not (find('(call f64::abs _)', a) or find('(lt _ _)', a)) for a, _ in cx.guards(b, oks[0][0].bb))
+            # entries: result[(i,j)] = adj(i,j) / det
+            dag = b.dag()
+            adj = {(0, 0): ent[(1, 1)], (0, 1): ('neg', ent[(0, 1)]), (1, 0): ('neg', ent[(1, 0)]), (1, 1): ent[(0, 0)]}
+            got = {}
+            for m_ in b.mutations():
+                if m_.kind != 'store':
+                    continue
+                tgt = simplify(dag.local(m_.data['pl']['l'], m_.bb, m_.idx))
+                e = match('(call Mat::index_mut _ (agg tuple (0 $r) (1 $c)))', tgt)
+                if e is None or e['r'][0] != 'const' or e['c'][0] != 'const':
+                    continue
+                val = simplify(dag.rvalue(m_.data['rv'], m_.bb, m_.idx))
+                got[(e['r'][1], e['c'][1])] = rat_equal(val, ('div', adj[(e['r'][1], e['c'][1])], det))
+            oka = got == {k: True for k in adj}
+        cx.ob('GUARD', 'invert_2x2:singular', okm and okg,
+              'invert_2x2 fails exactly when the determinant m00*m11 - m01*m10 is zero (no absolute threshold: the determinant scales with the square of the mesh size)', where=b.file)
+        cx.ob('ALGEBRA', 'invert_2x2:adjugate', okm and oka, 'result = adjugate / det entry by entry: [[m11, -m01], [-m10, m00]] / det', where=b.file)
     # ---------------------------------------------------------------- UV wiring
     UV = 'geom3::mesh::uv_mapping::UvMapping'
     b = cx.fn(f'{UV}::new')
@@ -162,9 +207,45 @@ def run(cx):
         cx.ob('EXPR', 'UvMapping::point', ok, 'uv point = a*bc[0] + b*bc[1] + c*bc[2] (any order of terms) on UV triangle tri_id', where=b.file)
     b = cx.fn(f'{UV}::triangle')
     if b:
-        cx.expect('EXPR', 'UvMapping::triangle', cx.retval(b),
-                  '(agg *Option::Some (0 (agg tuple (0 (field 0 (field 1 $p))) (1 (unwrap (call TrianglePointLocation::barycentric_coordinates (field 1 (field 1 $p))))))))',
-                  'the triangle id and the barycentric location come from the same projection', where=b.file)
+        r = cx.retval(b)
+        P = '(call TriMesh::project_local_point_and_get_location (field tri_map (param self)) (param point) _)'
+        TRI = f'(call TriMesh::triangle (field tri_map (param self)) (field 0 (field 1 {P})))'
+        e = find(f'(agg *Option::Some (0 (agg tuple (0 (field 0 (field 1 {P}))) (1 $bc))))', r)
+        okt = interior_handled = False
+        if e is not None:
+            bc = e[1]['bc']
+            alts = list(bc[1:]) if bc[0] == 'phi' else [bc]
+            loc = [a_ for a_ in alts if match(f'(unwrap (call TrianglePointLocation::barycentric_coordinates (field 1 (field 1 {P}))))', a_) is not None]
+            inter = [a_ for a_ in alts if match(f'(unwrap (call *interior_barycentric (field a {TRI}) (field b {TRI}) (field c {TRI}) (param point)))', a_) is not None]
+            okt = len(loc) == 1 and len(loc) + len(inter) == len(alts)
+            interior_handled = len(inter) == 1
+        cx.ob('EXPR', 'UvMapping::triangle', okt, 'the triangle id and the barycentric weights come from the same projection (weights of an interior location are computed on '
+              'that same triangle for that same point)', where=b.file, found=None if okt else r)
+        pj = b.calls('TriMesh::project_local_point_and_get_location')
+        cx.ob('EXPR', 'UvMapping::triangle:solid', len(pj) == 1 and cx.arg(pj[0], 2) == ('const', True) and match('(field tri_map (param self))', cx.arg(pj[0], 0)) is not None and okt and interior_handled,
+              'the UV lookup treats the 2D triangles as SOLID: with solid = false parry2d moves a point strictly inside a triangle onto the nearest triangle edge, '
+              'so an interior UV coordinate would come back as a point on an edge; and the interior location (which carries no barycentric coordinates in 2D) is given weights instead of being unwrapped',
+              where=b.file, found=cx.arg(pj[0], 2) if pj else None)
+    b = cx.fn('geom3::mesh::uv_mapping::interior_barycentric')
+    if b:
+        somes = [d for s_, d in cx.rets(b) if d[0] == 'agg' and d[1].endswith('Option::Some')]
+        e = match('(agg * (0 (agg array (0 $w0) (1 $w1) (2 $w2))))', somes[0]) if len(somes) == 1 else None
+        ok = e is not None
+        if ok:
+            V = lambda q, ax: ('field', ax, ('call', 'OPoint::sub', ('param', {'b': 2, 'c': 3, 'p': 4}[q], q), ('param', 1, 'a')))
+            at = {}
+            for q in 'bcp':
+                for ax in 'xy':
+                    f_ = find(f'(field {ax} (call OPoint::sub (param {q}) (param a)))', somes[0])
+                    at[(q, ax)] = f_[0] if f_ else None
+            ok = all(v is not None for v in at.values())
+            if ok:
+                w0, w1, w2 = e['w0'], e['w1'], e['w2']
+                ok = rat_equal(('add', ('add', w0, w1), w2), ('const', 1.0))
+                for ax in 'xy':
+                    ok = ok and rat_equal(('add', ('mul', w1, at[('b', ax)]), ('mul', w2, at[('c', ax)])), at[('p', ax)])
+        cx.ob('ALGEBRA', 'interior_barycentric', ok,
+              'the weights of an interior point sum to one and reproduce the point: w1 (b - a) + w2 (c - a) = p - a in both coordinates (order a, b, c as in UvMapping::point)', where=b.file)
     b = cx.fn('geom3::mesh::Mesh::uv_to_3d')
     if b:
         r = cx.retval(b)
